@@ -65,17 +65,23 @@ func init() {
 func init() {
 	props["C03"] = propCfg{Level: "exploration",
 		Assume: []string{"relational: the From-Markdown family is the reference for the From-Root family (each is tied to the model by C01-C09)", "error messages are not compared, only nil-ness and sentinel identity"},
-		Rule: "cases: every single-root labeled tree up to the node bound (intended trees incl. repeated sibling names) built by 4 Add orders (pre-order, breadth-first, 2 seeded topological orders) with repeated Adds of existing names, plus seeded random trees with hostile names (a fifth with LF/CR/empty names, From-Root only); one evaluation = one From-Root operation (text x 3 branch tuples, JSON, YAML, TOML, walk, iterator, mkdir, verify strict/non-strict, dry-run) compared with its From-Markdown counterpart or alias, or one nil / non-root call (12 entry points) judged on sentinel error, zero bytes and unchanged jail; distinct key = hash(tree, operation, Add order | invalid kind, entry); non-trivial = >= 3 nodes, or any filesystem / invalid-root case"}
+		Rule:   "cases: every single-root labeled tree up to the node bound (intended trees incl. repeated sibling names) built by 4 Add orders (pre-order, breadth-first, 2 seeded topological orders) with repeated Adds of existing names, plus seeded random trees with hostile names (a fifth with LF/CR/empty names, From-Root only); one evaluation = one From-Root operation (text x 3 branch tuples, JSON, YAML, TOML, walk, iterator, mkdir, verify strict/non-strict, dry-run) compared with its From-Markdown counterpart or alias, or one nil / non-root call (12 entry points) judged on sentinel error, zero bytes and unchanged jail; distinct key = hash(tree, operation, Add order | invalid kind, entry); non-trivial = >= 3 nodes, or any filesystem / invalid-root case"}
 }
 
 func init() {
 	props["C17"] = propCfg{Level: "exploration", Wasm: true,
 		Assume: []string{"-tags tinywasm built natively for linux/amd64 exercises the same Go code as the TinyGo/wasm artefact (compiler and syscall/js glue are out of scope)", "error texts are not compared; bytes are compared only when both builds accept"},
-		Rule: "cases: degenerate list, every labeled forest up to the node bound in 2-6 spellings, every single-line malformation injection M1-M6 on forests up to 4/5 nodes, seeded random well-formed and grammar-mutated documents, raw byte strings; each x {text default, 4 custom branch tuples incl. empty strings, JSON, dry-run with 4 extension lists}; one evaluation = the same case sent to the default-build driver and the tinywasm-build driver, outcomes compared; distinct key = hash(document bytes, mode); non-trivial = non-empty document"}
+		Rule:   "cases: degenerate list, every labeled forest up to the node bound in 2-6 spellings, every single-line malformation injection M1-M6 on forests up to 4/5 nodes, seeded random well-formed and grammar-mutated documents, raw byte strings; each x {text default, 4 custom branch tuples incl. empty strings, JSON, dry-run with 4 extension lists}; one evaluation = the same case sent to the default-build driver and the tinywasm-build driver, outcomes compared; distinct key = hash(document bytes, mode); non-trivial = non-empty document"}
 }
 
 func init() {
 	props["C14"] = propCfg{Level: "fault_enumeration",
 		Assume: []string{"a failing io.Reader keeps failing; a failing io.Writer keeps failing after its first failure", "heading-root documents are not run in massive mode here (known finding of C10)"},
-		Rule: "fault enumeration: for each document of a seeded corpus (48 quick / 1600 thorough, <= ~300 bytes) the reader fails with a sentinel after EVERY byte offset 0..len (7 From-Markdown entry points x simple/massive; filesystem entry points at a quarter of the offsets) and the writer fails at EVERY write index of the fault-free run, as plain error and as short write (text, custom branch, JSON, YAML, TOML, dry-run, non-iterator x From-Markdown/From-Root x simple/massive); one evaluation = one real call with one injected fault; distinct key = hash(document, entry/mode, fault kind, fault index); every case is non-trivial (a fault is injected; 'failed_writes'/'reader Failed' are measured, a fault that never took effect is inconclusive)"}
+		Rule:   "fault enumeration: for each document of a seeded corpus (48 quick / 1600 thorough, <= ~300 bytes) the reader fails with a sentinel after EVERY byte offset 0..len (7 From-Markdown entry points x simple/massive; filesystem entry points at a quarter of the offsets) and the writer fails at EVERY write index of the fault-free run, as plain error and as short write (text, custom branch, JSON, YAML, TOML, dry-run, non-iterator x From-Markdown/From-Root x simple/massive); one evaluation = one real call with one injected fault; distinct key = hash(document, entry/mode, fault kind, fault index); every case is non-trivial (a fault is injected; 'failed_writes'/'reader Failed' are measured, a fault that never took effect is inconclusive)"}
+}
+
+func init() {
+	props["C10"] = propCfg{Level: "exploration", Race: true, RaceTier: "thorough",
+		Assume: []string{"the simple-mode result of the same build is the reference (it is tied to the model by C01-C09)", "only the interleavings actually produced are judged; evidence counts distinct hook-event orders"},
+		Rule:   "cases: seeded documents with 1-40 roots (blocks of 1-8 nodes, some equal root names) in every spelling incl. # heading roots and leading blank lines, a quarter with one injected malformed line, each with one operation (text, custom branches, JSON, YAML, dry-run, walk, mkdir, verify, strict verify); each scenario runs once in simple mode and 10 (quick) / 20 (thorough) times in massive mode under GOMAXPROCS in {1,2,4,16} x {no perturbation, yielding writer/callback, slow chunked reader, light and heavy seeded delays at the verifPoint hooks}; one evaluation = one massive execution compared with the simple result; distinct key = hash(document, operation, hook-event order of that execution), so distinct_nontrivial counts distinct (scenario, interleaving) pairs; non-trivial = >= 2 roots"}
 }
